@@ -125,8 +125,8 @@ Definition acts_split (bs : list body) : list mact :=
     Flush and the ticker seeing the signal; the parts written must be the ones observed, both goroutines must have
     ended and the response writer must never have been used by both at once *)
 Definition ids_of_body (b : body) : list nat := match b with BInitial q => [p_id q] | BIncr ps _ => map p_id ps | BFinal => [] end.
-(** the part that only says "nothing follows" is written by the handler under the same mutex, right after its final
-    flush: for the lock discipline it belongs to that flush *)
+(** the part that only says "nothing follows" carries no response: it is the closing write of [Done] (Model.MpLock's
+    MHClose stage), told apart from the flushes *)
 Definition no_final (bs : list body) : list body := filter (fun b => negb (is_final b)) bs.
 Definition groups_split (bs : list body) : list (list nat) := map ids_of_body (no_final bs).
 Definition groups_merged (bs : list body) : list (list nat) :=
@@ -134,24 +134,29 @@ Definition groups_merged (bs : list body) : list (list nat) :=
   | BInitial q :: BIncr ps _ :: r => (p_id q :: map p_id ps) :: map ids_of_body r
   | bs' => map ids_of_body bs'
   end.
-Fixpoint mp_schedule (groups : list (list nat)) {struct groups} : list mlabel :=
+(** [open]: the stream was left open by its last payload, so [Done]'s closing write (lock, last part and closing
+    boundary, Flush, unlock) happens; otherwise that stage is lock, look, unlock *)
+Fixpoint mp_schedule (open : bool) (groups : list (list nat)) {struct groups} : list mlabel :=
   match groups with
-  | [] => repeat MLHandler 4 ++ [MLSeeDone]                 (* nothing at all was produced: signal, lock, unlock, ... *)
-  | [g] => repeat MLHandler (List.length g) ++ repeat MLHandler 10 ++ [MLSeeDone]
-  | g :: r => repeat MLHandler (List.length g) ++ [MLTick] ++ repeat MLTicker 7 ++ mp_schedule r
+  | [] => repeat MLHandler 4 ++ repeat MLHandler (if open then 7 else 3) ++ [MLSeeDone]
+  | [g] => repeat MLHandler (List.length g) ++ repeat MLHandler 10 ++ repeat MLHandler (if open then 7 else 3) ++ [MLSeeDone]
+  | g :: r => repeat MLHandler (List.length g) ++ [MLTick] ++ repeat MLTicker 7 ++ mp_schedule open r
   end.
-Definition mp_lock_accepts (groups : list (list nat)) : bool :=
-  match mprun true (mpinit (List.concat groups)) (mp_schedule groups) with
-  | Some s => list_eqb (list_eqb Nat.eqb) (map snd (m_out s)) groups && returned s
+Definition mp_lock_accepts_open (open : bool) (groups : list (list nat)) : bool :=
+  match mprun true (mpinit_open (List.concat groups) open) (mp_schedule open groups) with
+  | Some s => list_eqb (list_eqb Nat.eqb) (map snd (m_out s)) (groups ++ (if open then [[]] else [])) && returned s
               && (match m_k s with MKEnd => true | _ => false end) && negb (both_using s) && Nat.eqb (m_late s) 0
+              && negb (m_open s)
   | None => false
   end.
+Definition mp_lock_accepts (groups : list (list nat)) : bool := mp_lock_accepts_open false groups.
+Definition has_final (bs : list body) : bool := existsb is_final bs.
 
 Definition multi_corr (toks : list tok) : bool :=
   match parse_toks ExpBoundary toks with
   | Some (bs, _) =>
-      (list_eqb tok_eqb (mrun_done (acts_split bs)) toks && mp_lock_accepts (groups_split bs))
-      || (list_eqb tok_eqb (mrun_done (acts_merged bs)) toks && mp_lock_accepts (groups_merged bs))
+      (list_eqb tok_eqb (mrun_done (acts_split bs)) toks && mp_lock_accepts_open (has_final bs) (groups_split bs))
+      || (list_eqb tok_eqb (mrun_done (acts_merged bs)) toks && mp_lock_accepts_open (has_final bs) (groups_merged bs))
   | None => false
   end.
 
